@@ -1,0 +1,16 @@
+//go:build verif
+
+package verifexport
+
+import "go.minekube.com/gate/pkg/internal/future"
+
+// Future is future.Future.
+type Future[T any] = future.Future[T]
+
+// NewFuture is future.New.
+func NewFuture[T any]() *Future[T] { return future.New[T]() }
+
+// ThenCompose is future.ThenCompose.
+func ThenCompose[T any, U any](f *Future[T], cb func(T) *Future[U]) *Future[U] {
+	return future.ThenCompose(f, cb)
+}
